@@ -45,6 +45,7 @@ Definition ended_with k ok := has (fun e => match e with TEnd j b => (j =? k) &&
 Definition any_start := has (fun e => match e with TStart _ => true | _ => false end).
 Definition any_prep := has (fun e => match e with TPrep _ => true | _ => false end).
 Definition any_nil_end := has (fun e => match e with TEnd _ true => true | _ => false end).
+Definition any_prepfail := has (fun e => match e with TPrepFail _ => true | _ => false end).
 Definition is_done := has (fun e => match e with TDone _ => true | _ => false end).
 (* the newest source event decides whether an incarnation is inside Start() *)
 Fixpoint src_running (p : list tev) : bool :=
@@ -53,6 +54,7 @@ Fixpoint src_running (p : list tev) : bool :=
   | TStart _ :: _ => true
   | TEnd _ _ :: _ => false
   | TPrep _ :: _ => false
+  | TPrepFail _ :: _ => false
   | _ :: r => src_running r
   end.
 Definition open_calls (n : nat) (p : list tev) : nat := length (entered n p) - length (rets n p).
@@ -96,12 +98,18 @@ Definition ev_ok (nt : net) (e : tev) (p : list tev) : list (nat * nat) :=   (* 
   | TPrep k =>
       chk (negb (prepped k p)) (18, 1)
       ++ chk (match k with O => negb (any_prep p) | S j => ended_with j false p end) (18, 2)
+      ++ chk (negb (any_prepfail p)) (18, 7)                  (* C18: nothing from the source after a failed Setup *)
+  | TPrepFail k =>
+      chk (negb (prepped k p)) (18, 1)
+      ++ chk (match k with O => negb (any_prep p) | S j => ended_with j false p end) (18, 2)
+      ++ chk (negb (any_prepfail p)) (18, 7)
   | TStart k =>
       chk (prepped k p && negb (started k p)) (18, 3)         (* C18: set up before started, never started twice *)
       ++ chk (match k with O => true | S j => ended_with j false p end) (18, 2)
       ++ chk (negb (any_nil_end p)) (18, 4)                   (* C18: nothing restarts after a nil return *)
-  | TEnd k _ => chk (started k p && negb (ended k p)) (18, 5)
-  | TEmit _ => chk (src_running p) (18, 6)
+      ++ chk (negb (any_prepfail p)) (18, 7)
+  | TEnd k _ => chk (started k p && negb (ended k p)) (18, 5) ++ chk (negb (any_prepfail p)) (18, 7)
+  | TEmit _ => chk (src_running p) (18, 6) ++ chk (negb (any_prepfail p)) (18, 7)
   | TEnter n it =>
       chk (is_setup n p) (5, 1)                               (* C05: set up before any event *)
       ++ chk (negb (shutb n p)) (3, 4)                        (* C03: no event after its Shutdown began *)
